@@ -74,10 +74,12 @@ type World struct {
 }
 
 func WorkRoot() string {
-	if v := os.Getenv("VERIF_WORK"); v != "" {
-		return v
+	v := os.Getenv("VERIF_WORK")
+	if v == "" {
+		v = "/verif/work"
 	}
-	return "/verif/work"
+	_ = os.MkdirAll(v, 0o755)
+	return v
 }
 
 func NewWorld(opt Options) (*World, error) {
@@ -171,8 +173,11 @@ func (w *World) InitPayload(t int, createdAt time.Time, nodes ...*Node) []byte {
 	}
 	var ps []*requests.SignatureProposalParticipantsEntry
 	for _, n := range nodes {
-		pk, err := n.Cold.GetPubKey().MarshalBinary()
-		if err != nil {
+		var pk []byte
+		var err error
+		if n.Proc != nil {
+			pk = n.ColdPub
+		} else if pk, err = n.Cold.GetPubKey().MarshalBinary(); err != nil {
 			panic(err)
 		}
 		ps = append(ps, &requests.SignatureProposalParticipantsEntry{Username: n.Name, PubKey: n.KeyPair.Pub, DkgPubKey: pk})
@@ -272,6 +277,9 @@ func (w *World) coldResult(n *Node, op *types.Operation, storeLog bool) (*types.
 	in, err := JSONRoundTrip(op)
 	if err != nil {
 		return nil, err
+	}
+	if n.Proc != nil {
+		return n.Proc.ReadOperation(in)
 	}
 	var res types.Operation
 	if storeLog {
@@ -398,7 +406,7 @@ func (w *World) Enabled() []Action {
 		if int(n.Offset()) < bl {
 			acts = append(acts, Action{Kind: "poll", Node: i})
 		}
-		if n.Cold == nil {
+		if n.Cold == nil && n.Proc == nil {
 			continue
 		}
 		for _, op := range w.PendingOps(n) {
